@@ -140,7 +140,7 @@ class AtomsEngine(Engine):
     name = 'session_atoms'
     max_ops = 50
     expected_probes = ['inplace_overwrite_other_dtype', 'alias_candidate_used', 'refused_raised', 'scribble_result',
-                       'scribble_safecopy', 'setitem_overlap', 'extend_new_props_both_sides', 'natypes_grew', 'readonly_reassign_refused', 'noncontiguous_input', 'atype_lt1_scalar_forms', 'default_constructed_object',
+                       'scribble_safecopy', 'setitem_overlap', 'extend_new_props_both_sides', 'natypes_grew', 'readonly_reassign_refused', 'noncontiguous_input', 'atype_lt1_scalar_forms', 'default_constructed_object', 'types_renumbered_through_prop_atype', 'scaled_access_by_a_id',
                        'negative_index', 'mask_index', 'scaled_write', 'prop_atype_single_new_key', 'df_checked',
                        'box_set_with_possible_sharers', 'box_alias_candidate_used']
     rule = ('Each run keeps a pool of up to 6 live Atoms/System objects (parent/child links recorded) and applies up to '
@@ -295,6 +295,9 @@ class AtomsEngine(Engine):
             nt = m.natypes()
             cand = [nm for nm in reg if nm not in ('pos', 'atype')]
             key = r.choice(cand) if cand else None
+            if r.random() < 0.15 and nt >= 1:
+                # the types themselves renumbered per type (a swap, a cycle, a merge)
+                return {'op': 'prop_atype', 'o': slot, 'key': 'atype', 'form': 'vector', 'values': [r.randint(1, 4) for _ in range(nt)]}
             if key is None:
                 return {'op': 'df', 'o': slot}
             cls, ts = reg[key]
@@ -404,8 +407,12 @@ class AtomsEngine(Engine):
             return {'op': 'box_set', 'o': slot, 'V': V, 'origin': geom.draw_origin(r, float(np.abs(V).max())),
                     'via': r.choice(['box', 'system'])}
         if k == 'scaled_get':
-            return {'op': 'scaled_get', 'o': slot, 'key': r.choice(['pos', None]), 'index': r.choice([None, self._index(ctx, m.n)]),
-                    'junk': r.randint(60, 70)}
+            op = {'op': 'scaled_get', 'o': slot, 'key': r.choice(['pos', None]), 'index': r.choice([None, self._index(ctx, m.n)]),
+                  'junk': r.randint(60, 70)}
+            if r.random() < 0.15:
+                op['index'] = {'k': 'int', 'i': r.choice([0, 0, m.n - 1])}
+                op['a_id'] = True           # the older keyword for one atom
+            return op
         if k == 'scaled_set':
             idx = r.choice([None, self._index(ctx, m.n, unique=True)])
             rows = resolve(idx, m.n) if idx else list(range(m.n))
@@ -418,7 +425,12 @@ class AtomsEngine(Engine):
                     rel = rel[0]
             else:
                 rel = [[round(r.uniform(-0.5, 1.5), 4) for _ in range(3)] for _ in rows]
-            return {'op': 'scaled_set', 'o': slot, 'index': idx, 'form': form, 'rel': rel}
+            op = {'op': 'scaled_set', 'o': slot, 'index': idx, 'form': form, 'rel': rel}
+            if idx is not None and idx['k'] == 'int' and idx['i'] >= 0 and r.random() < 0.4:
+                op['a_id'] = True
+            elif r.random() < 0.1:
+                op.update(index={'k': 'int', 'i': 0}, form='one', rel=[[round(r.uniform(-0.5, 1.5), 4) for _ in range(3)]], a_id=True)
+            return op
         op = {'op': 'atoms_extend', 'o': slot, 'scale': False, 'symbols': r.choice([None, None, [r.choice(SYMS) for _ in range(r.randint(1, 4))]]),
               'safecopy': r.random() < 0.4, 'junk': r.randint(90, 99)}
         if r.random() < 0.25:
@@ -902,6 +914,10 @@ class AtomsEngine(Engine):
             if len(vals) < nt:
                 return {'skip': 1}
             arr = np.array(vals)
+            if key == 'atype':
+                if any((not isinstance(v, int)) or v < 1 for v in vals):
+                    return {'skip': 1}
+                ctx.probe('types_renumbered_through_prop_atype')
             ctx.must('C06.X', m.atoms.prop_atype, key, arr, klass='prop_atype/vector/' + ('new' if new_key else 'existing'))
             if new_key:
                 cls = kind_of(arr)
@@ -1197,6 +1213,9 @@ class AtomsEngine(Engine):
         if rows is None:
             return {'skip': 1}
         kw = {} if idx is None else {'index': real_index(idx)}
+        if op.get('a_id') and idx is not None and idx['k'] == 'int' and idx['i'] >= 0:
+            kw = {'a_id': int(idx['i'])}
+            ctx.probe('scaled_access_by_a_id')
         size = float(np.abs(m.V).max()) + float(np.abs(m.o).max())
         if op['key'] is None:
             sub = ctx.must('C06.A3', m.real.atoms_prop, scale=True, klass='atoms_prop(scale)/atoms', **kw)
@@ -1235,6 +1254,9 @@ class AtomsEngine(Engine):
         if op['form'] == 'each' and rel.shape != (len(rows), 3):
             return {'skip': 1}
         kw = {} if idx is None else {'index': real_index(idx)}
+        if op.get('a_id') and idx is not None and idx['k'] == 'int' and idx['i'] >= 0:
+            kw = {'a_id': int(idx['i'])}
+            ctx.probe('scaled_access_by_a_id')
         ctx.must('C06.X', m.real.atoms_prop, 'pos', value=rel, scale=True, klass='atoms_prop(scale)/set/' + (idx['k'] if idx else 'none'), **kw)
         cart = geom.rel_to_cart(m.V, m.o, rel.reshape(-1, 3))
         for j, rrow in enumerate(rows):
@@ -1433,8 +1455,14 @@ class AtomsEngine(Engine):
             if m.kind == 'system':
                 s = m.real
                 nt = int(atoms.view['atype'].max()) if m.n else 0
-                sym = ctx.must('C06.A5', getattr, s, 'symbols', klass='symbols')
-                mas = ctx.must('C06.A5', getattr, s, 'masses', klass='masses')
+                st['inv_n'] = st.get('inv_n', 0) + 1
+                if st['inv_n'] % 2:
+                    # a caller may ask for the masses before anything has asked for the symbols
+                    mas = ctx.must('C06.A5', getattr, s, 'masses', klass='masses')
+                    sym = ctx.must('C06.A5', getattr, s, 'symbols', klass='symbols')
+                else:
+                    sym = ctx.must('C06.A5', getattr, s, 'symbols', klass='symbols')
+                    mas = ctx.must('C06.A5', getattr, s, 'masses', klass='masses')
                 if len(sym) < nt or len(mas) < nt:
                     raise Violation('C06.A5', {'what': 'symbols/masses shorter than number of atom types', 'symbols': list(sym),
                                                'masses': list(mas), 'natypes': nt, 'after': after}, klass='pad/' + after)
